@@ -108,7 +108,7 @@ def usb_reader_semantics(program, n=8, head=(0xaa, 0x55), length=20):
         def hook(it, call, env):
             name = ast.unparse(call.func)
             if name.endswith('._extract_header'):
-                return (A.sym_int('H.pgn', 18), A.sym_int('H.src', 8), A.sym_int('H.dst', 8), A.sym_int('H.prio', 3))
+                return header_standin(it, call, env)
             if name == 'self._decode':
                 args_ = [it.expr(a, env) for a in call.args[:4]]
                 if any(isinstance(a_, A.AOpaque) for a_ in args_):
@@ -172,6 +172,28 @@ def encode_with(program, method, frames, payload=None):
         raise A.Unknown(f"{method}: the packets returned were not followed ({res!r})"[:160])
     return res, rec
 
+def header_standin(it, call, env):
+    """what the hooks return for _extract_header(..): four symbolic integers in the positions (pgn, source, destination, priority) -- C05 ID-PARSE
+    decides that these are the positions -- in the container the real function returns: a plain tuple, or the named tuple it builds (found by
+    interpreting the real function once on a symbolic identifier; when that is not possible the plain tuple is used)"""
+    vals = (A.sym_int('H.pgn', 18), A.sym_int('H.src', 8), A.sym_int('H.dst', 8), A.sym_int('H.prio', 3))
+    hook_, it.hook = it.hook, None
+    try:
+        try:
+            c_ = ast.Call(func=call.func, args=[ast.Constant(value=0x09F80103)], keywords=[])
+            ast.copy_location(c_, call); ast.fix_missing_locations(c_)
+            shape = it.call(c_, env)
+        except (A.Unknown, A.PyError, A.RaiseSignal, RecursionError):
+            shape = None
+    finally:
+        it.hook = hook_
+    if isinstance(shape, A.AObj) and len(shape.attrs.get('__fields__', ())) == 4:
+        o = A.AObj(**shape.attrs)
+        for k, v in zip(shape.attrs['__fields__'], vals):
+            o.attrs[k] = v
+        return o
+    return vals
+
 def decode_with(program, method, packet, extra_args=()):
     """interpret NMEA2000Decoder.<method>(packet) ; -> recorder (header argument, arguments handed to _decode)"""
     fn = program.fn('decoder', f"NMEA2000Decoder.{method}")
@@ -181,7 +203,7 @@ def decode_with(program, method, packet, extra_args=()):
         name = ast.unparse(f)
         if name.endswith('._extract_header'):
             rec.header_arg = it.expr(call.args[0], env)
-            return (A.sym_int('H.pgn', 18), A.sym_int('H.src', 8), A.sym_int('H.dst', 8), A.sym_int('H.prio', 3))
+            return header_standin(it, call, env)
         if name == 'calculate_canbus_checksum':
             arg = it.expr(call.args[0], env)
             if isinstance(arg, A.ABytes):
